@@ -14,8 +14,11 @@ GRAMMARS = {
     'alt_name_rules': ([('start', S(A(C('ident'), C('anyw')), OPT(T('!')))), ('ident', P('[a-z]+')), ('anyw', P('[a-z]+'))], ['if', 'a'], ['ident'], "@@keyword :: if a\n"),
     'memo_prefix': ([('start', A(S(C('word'), T('x')), S(C('word'), T('y')), S(P('i'), C('word')))), ('word', P('[a-z]+?(?=[xy]|$)|[a-z]'))], ['if', 'i'], ['word'], "@@keyword :: if i\n"),
     'named_value': ([('start', S(N('n', C('word')), OPT(N('m', C('word'))))), ('word', A(T('if'), T('a'), P('[b-z]+')))], ['if'], ['word'], "@@keyword :: if\n"),
+    # more keywords than fit on one row of any table a generator might lay out; two directives, words and quoted strings
+    'many_keywords': ([('start', S(REP1(C('word')), EOF_)), ('word', P('[a-z]+'))], ['as', 'at', 'by', 'do', 'if', 'in', 'is', 'of', 'on', 'or', 'to', 'up'], ['word'],
+                      "@@keyword :: as at by do if in\n@@keyword :: 'is' of on 'or' to up\n"),
 }
-WARM = ['', 'a', 'if', 'IF', 'fi', 'ifa', 'if a', 'a if', 'iff', 'i', 'ifx', 'ix', 'aif', 'If a', 'if!', 'ab', 'a b', 'fi a', 'ify', 'ii', 'if if']
+WARM = ['', 'a', 'if', 'of', 'on', 'up', 'as', 'ofon', 'of a', 'IF', 'fi', 'ifa', 'if a', 'a if', 'iff', 'i', 'ifx', 'ix', 'aif', 'If a', 'if!', 'ab', 'a b', 'fi a', 'ify', 'ii', 'if if']
 BUDGET = {0: 40, 1: 40, 2: 80, 3: 360, 4: 1200, 5: 3600}
 
 
@@ -30,6 +33,8 @@ def plan(tier, seed):
     for gn, (rules, kws, name_rules, directive) in GRAMMARS.items():
         for ic in (False, True):
             for n in range(0, maxn + 1):
+                if gn == 'many_keywords' and (ic or (tier == 'quick' and n > 2)):
+                    continue
                 if tier == 'quick' and ((ic and n < 2) or (n == 4 and gn not in ('choice', 'closure', 'memo_prefix'))):
                     continue
                 if tier == 'quick' and ic and n == 3 and gn not in ('closure',):
@@ -38,7 +43,9 @@ def plan(tier, seed):
                 spec = {'grammar': gn, 'rules': rules, 'n': n, 'directives': directives, 'decorators': {r: ['name'] for r in name_rules},
                         'ref': {'keywords': kws, 'name_rules': name_rules, 'ignorecase': ic}, 'gen': True, 'warm': WARM}
                 pre = ''
-                if n >= 4:
+                if n >= 4 and gn == 'many_keywords':
+                    pre = alpha_pre(n, 'ofnupa ')
+                elif n >= 4:
                     # stated: at length >= 4 the code points are restricted to the keyword alphabet, one other letter, upper case I F, space and '!'
                     pre = alpha_pre(n, 'ifaxy IF!b')
                 obs.append(Ob(name=f'{gn}_{"ic" if ic else "cs"}_L{n}', factory='vt.pegbody:make_peg', spec=spec, params=[(f'c{i}', 0, UNI) for i in range(n)],
@@ -55,13 +62,14 @@ def plan(tier, seed):
                 for n in ((2, 3) if tier == 'quick' else (2, 3, 4)):
                     obs.append(Ob(name=f'{gn}_with-action_L{n}', factory='vt.props.c11:make_with_action', spec={'grammar': gn, 'ic': ic, 'n': n},
                                   params=[(f'c{i}', 0, UNI) for i in range(n)], budget=BUDGET[min(n, 3)] * (1 if n < 4 else 4), group='with-action'))
-            if tier == 'quick' and ic and gn not in ('closure',):
+            if (tier == 'quick' and ic and gn not in ('closure',)) or gn == 'many_keywords':
                 continue
             spec2 = {'grammar': gn, 'ic': ic, 'n': 3}
             obs.append(Ob(name=f'{gn}_{"ic" if ic else "cs"}_undecorated_L3', factory='vt.props.c11:make_undecorated', spec=spec2,
                           params=[(f'c{i}', 0, UNI) for i in range(3)], budget=300, group='undecorated'))
     return {
         'obligations': obs,
+        'native': native_checks,
         'level': 'other',
         'programs': len(GRAMMARS) * 2,
         'explanation': 'Grammars with @@keyword (words and quoted strings) and @name rules used in choices, closures, lookaheads, next to undecorated rules and with memo '
@@ -75,6 +83,31 @@ def plan(tier, seed):
         'outside': 'longer texts; keywords added through the API instead of directives; @name with semantic actions',
         'assumptions': ['vt/refpeg.py keyword rule: str(value) (upper-cased under ignorecase) in the keyword set'],
     }
+
+
+def native_checks():
+    """the keyword table a generated parser carries is the model's keyword set (every grammar of the family, plus keyword lists of 1..40 words)"""
+    import tatsu
+    from ..pegbody import render_full
+    bad = []
+    cases = {gn: d + render_full(rules, {r: ['name'] for r in nr}) for gn, (rules, kws, nr, d) in GRAMMARS.items()}
+    for k in (1, 2, 7, 8, 9, 16, 17, 25, 40):
+        words = [f'k{i:02d}' for i in range(k)]
+        cases[f'{k}_keywords'] = ''.join(f'@@keyword :: {w}\n' for w in words[:3]) + ('@@keyword :: ' + ' '.join(words[3:]) + '\n' if k > 3 else '') + "start: {word}+ $ ;\n@name\nword: /[a-z0-9]+/ ;\n"
+    for nm, g in cases.items():
+        try:
+            model = tatsu.compile(g, name='KW')
+            ns: dict = {}
+            exec(compile(tatsu.to_python_sourcecode(g, name='KW'), '<gen>', 'exec'), ns)  # noqa: S102
+            gk = {str(k) for k in ns['KEYWORDS']}
+            if not isinstance(ns['KEYWORDS'], (tuple, list, set, frozenset)):
+                bad.append([nm, 'KEYWORDS is not a collection', repr(ns['KEYWORDS'])[:60]])
+            mk = {str(k) for k in model.keywords}
+            if gk != mk:
+                bad.append([nm, 'generated keyword table differs', sorted(gk ^ mk)[:6]])
+        except Exception as e:  # noqa: BLE001
+            bad.append([nm, type(e).__name__ + ': ' + str(e)[:100]])
+    return [{'name': f'generated_keyword_table_equals_model_keywords[{len(cases)}]', 'ok': not bad, 'detail': bad[:6]}]
 
 
 def make_with_action(spec):
